@@ -366,16 +366,23 @@ fn cotan_laplacian_triplets(
 
     // Prepare the diagonal values
     let mut diagonals = vec![0.0; n_vert];
+    let mut has_edge = vec![false; n_vert];
     for (edge, &value) in edges.iter().zip(values.iter()) {
         diagonals[edge[0] as usize] += value;
         diagonals[edge[1] as usize] += value;
+        has_edge[edge[0] as usize] = true;
+        has_edge[edge[1] as usize] = true;
     }
 
-    // Build the sparse matrix
+    // Build the sparse matrix. The diagonal is not shifted: a shift of `s` moves the solution by
+    // about `s` over the smallest eigenvalue, which falls with the square of the number of
+    // vertices across the mesh, so that even 1e-8 stretched a long strip by a percent. A vertex no
+    // face refers to has an empty row, it gets a one so that the matrices stay regular, and the
+    // constants in the kernel of the full matrix are dealt with in `laplacian_set`.
     let mut triplets = Vec::new();
     for (i, &value) in diagonals.iter().enumerate() {
-        // The 1e-8 is added for stability (ensures the matrix is positive definite?)
-        triplets.push(Triplet::new(i as u32, i as u32, value + 1e-8));
+        let value = if has_edge[i] { value } else { 1.0 };
+        triplets.push(Triplet::new(i as u32, i as u32, value));
     }
 
     for (edge, &value) in edges.iter().zip(values.iter()) {
@@ -432,7 +439,21 @@ fn laplacian_set(
     i_bound: &[u32],
     triplets: &[Triplet<u32, u32, f64>],
 ) -> Result<(SparseMat, SparseMat, SparseMat, SparseMat)> {
-    let a = SparseColMat::try_new_from_triplets(n, n, triplets)?;
+    // The full matrix is only ever solved against a right hand side which sums to zero, and its
+    // kernel is the constants. Tying the first boundary vertex to zero with a unit spring makes it
+    // regular without changing the solution of such a system.
+    let pin = i_bound.first().copied();
+    let pinned = triplets
+        .iter()
+        .map(|t| {
+            if Some(t.row) == pin && t.col == t.row {
+                Triplet::new(t.row, t.col, t.val + 1.0)
+            } else {
+                *t
+            }
+        })
+        .collect::<Vec<_>>();
+    let a = SparseColMat::try_new_from_triplets(n, n, &pinned)?;
     let aii = slice_triplets_to_sparse(i_inner, i_inner, triplets)?;
     let aib = slice_triplets_to_sparse(i_inner, i_bound, triplets)?;
     let abb = slice_triplets_to_sparse(i_bound, i_bound, triplets)?;
